@@ -126,8 +126,9 @@ example : (final (selfLoop false)).status = .done := by decide
 
 /-- the cycle really is wired with the early references, and the slice gets all three -/
 example : (final cyc).fields 2 0 = [raw 0] ∧ (final cyc).fields 0 1 = [raw 1, raw 2, raw 3] := by decide
-/-- the fuel is needed: one step earlier the 5-cycle is still running -/
-example : (run cyc5 (fuelBound cyc5 - 2) (init cyc5)).status = .running := by decide
+/-- the bound is not far off: the 5-cycle needs 21 of its 26 steps -/
+example : fuelBound cyc5 = 26 ∧ (run cyc5 20 (init cyc5)).status = .running ∧ (run cyc5 21 (init cyc5)).status = .done := by
+  decide
 /-- the optional self-only point is left empty -/
 example : (final (selfLoop false)).fields 0 0 = [] := by decide
 
@@ -138,6 +139,14 @@ example :
     let st := run sc 2 (init sc)
     ∃ f rest, st.status = .running ∧ st.stack = f :: rest ∧ f.name = 0 ∧ f.p = 0 ∧ f.d = 1 ∧
       f.acc = [raw 0] ∧ (step sc st).status = .failed 0 .refresh :=
-  ⟨⟨0, 0, 1, [raw 0]⟩, [], by decide, by decide, rfl, rfl, rfl, rfl, by decide⟩
+  ⟨⟨0, 0, 1, [raw 0]⟩, [], by decide, rfl, rfl, rfl, rfl, rfl, by decide⟩
+
+/-- … and of `C02_self_only_optional`: same state of `selfLoop false`; the step leaves the field empty and moves on -/
+example :
+    let sc := selfLoop false
+    let st := run sc 2 (init sc)
+    ∃ f rest, st.status = .running ∧ st.stack = f :: rest ∧ f.name = 0 ∧ f.p = 0 ∧ f.d = 1 ∧
+      f.acc = [raw 0] ∧ (step sc st).status = .running ∧ (step sc st).fields 0 0 = [] :=
+  ⟨⟨0, 0, 1, [raw 0]⟩, [], by decide, rfl, rfl, rfl, rfl, rfl, by decide, by decide⟩
 
 end Ioc.C02
